@@ -163,21 +163,34 @@ func ntype(t int) el.NodeType {
 	return el.NodeType(9)
 }
 func polOpt(p int, node bool) []el.Option {
-	var pol el.RegistrationPolicy
+	mk := func(pol el.RegistrationPolicy) el.Option {
+		if node {
+			return el.WithNodeRegistrationPolicy(pol)
+		}
+		return el.WithPipelineRegistrationPolicy(pol)
+	}
+	bad := el.RegistrationPolicy("NoSuchPolicy")
 	switch p {
 	case 0:
 		return nil
 	case 1:
-		pol = el.AllowOverwrite
+		return []el.Option{mk(el.AllowOverwrite)}
 	case 2:
-		pol = el.DenyOverwrite
+		return []el.Option{mk(el.DenyOverwrite)}
+	case 3:
+		return []el.Option{mk(bad)}
+	// several options in one call: an invalid one anywhere rejects the call; otherwise the last one wins; nil options are skipped
+	case 4:
+		return []el.Option{mk(bad), mk(el.DenyOverwrite)}
+	case 5:
+		return []el.Option{mk(bad), mk(el.AllowOverwrite)}
+	case 6:
+		return []el.Option{mk(el.AllowOverwrite), nil, mk(el.DenyOverwrite)}
+	case 7:
+		return []el.Option{mk(el.DenyOverwrite), mk(el.AllowOverwrite)}
 	default:
-		pol = el.RegistrationPolicy("NoSuchPolicy")
+		return []el.Option{mk(el.DenyOverwrite), mk(bad)}
 	}
-	if node {
-		return []el.Option{el.WithNodeRegistrationPolicy(pol)}
-	}
-	return []el.Option{el.WithPipelineRegistrationPolicy(pol)}
 }
 
 // ---------- observations ----------
@@ -403,7 +416,9 @@ func stateKey(o Obs, types []int) string {
 func tyLit(t int) string {
 	return [...]string{"TOther", "TFilter", "TFormatter", "TSink", "TFormatterFilter", "TOther"}[t]
 }
-func polLit(p int) string { return [...]string{"ANone", "AAllow", "ADeny", "ABad"}[p] }
+func polLit(p int) string {
+	return [...]string{"ANone", "AAllow", "ADeny", "ABad", "ABad", "ABad", "ADeny", "AAllow", "ABad"}[p]
+}
 func opLit(op Op) string {
 	switch op.K {
 	case "regnode":
@@ -664,8 +679,8 @@ func genRandom(e *emitter, r *hc.Rand, n, maxLen int) {
 				if id == 0 || r.Chance(1, 8) {
 					ty = 1 + r.Intn(5)
 				}
-				pol := []int{0, 0, 1, 2, 2, 3}[r.Intn(6)]
-				if r.Chance(3, 4) && pol == 3 {
+				pol := []int{0, 0, 1, 2, 2, 3, 4, 6, 7, 8}[r.Intn(10)]
+				if r.Chance(3, 4) && (pol == 3 || pol == 4 || pol == 8) {
 					pol = 0
 				}
 				wrap := 0
@@ -691,7 +706,7 @@ func genRandom(e *emitter, r *hc.Rand, n, maxLen int) {
 						ids[r.Intn(len(ids))] = 0
 					}
 				}
-				pol := []int{0, 0, 0, 1, 2, 3}[r.Intn(6)]
+				pol := []int{0, 0, 0, 1, 2, 3, 4, 5, 6, 7, 8}[r.Intn(11)]
 				p, t := 1+r.Intn(3), 1+r.Intn(2)
 				if r.Chance(1, 30) {
 					p = 0
@@ -729,7 +744,7 @@ func genRandom(e *emitter, r *hc.Rand, n, maxLen int) {
 
 // C07: all policy sequences up to length maxLen for one node id and one pipeline id, interleaved with removals
 func genPolicy(e *emitter, maxLen int) {
-	pols := []int{0, 1, 2, 3}
+	pols := []int{0, 1, 2, 3, 4, 6, 7}
 	var rec func(seq []int)
 	rec = func(seq []int) {
 		if len(seq) > 0 {
